@@ -363,13 +363,14 @@ _upd('C02',
 _upd('C19',
      'Theorems: replace_inputs yields exactly the cofactor over the remaining inputs in order and keeps the invariant; remove_gate succeeds '
      'only for an existing gate without users and removes it from gate map, outputs and blocks, with the exact error class otherwise; '
-     'rename_gate yields the renamed circuit (every reference points at the new label), keeps the invariant and every truth table; '
+     'rename_gate yields the renamed circuit (every reference points at the new label), keeps the invariant and every truth table, and is total: '
+     'it returns exactly when the old label is a gate and the new one is not, and raises its two documented errors for exactly those reasons; '
      'replace_subcircuit leaves the circuit well formed whenever it returns (any replacement), and with a replacement that agrees with the slice '
      'on every valuation of the circuit (equivalence under the given correspondence, only on value combinations that occur) every valuation of '
      'the original extends to one of the result with the same output values and the same inputs position by position — the same truth table. '
      'All four calls are compared with the code on every run (many cut-bounded slices per circuit, truth-table and checkWFU oracles).',
-     'Side condition of the replace_subcircuit function theorem: no slice output is a circuit INPUT. Which documented error is raised when the '
-     'call does not return is established by correspondence only.')
+     'Side condition of the replace_subcircuit function theorem: no slice output is a circuit INPUT. Which documented error replace_subcircuit raises when it '
+     'does not return is established by correspondence only.')
 _upd('C20',
      'Theorems: Kahn in both directions yields every gate once in dependency order and never raises on well-formed circuits; DFS/BFS yield '
      'exactly the reachable gates, each once, and hand exactly the unreached gates to the unvisited hook (storage or topological order); DFS '
